@@ -47,7 +47,11 @@ pub fn decode(bytes: &[u8], thorough: bool) -> Case {
         // the upper third of the range, where the envelope is below the payoff range for small N
         (max_log.exp() * (0.33 + 0.67 * s.unit())) as u64
     };
-    let threads = if s.weighted(&[3, 1]) == 0 { 1 } else { 2 + s.below(15) };
+    let threads = match s.weighted(&[6, 1, 1]) {
+        0 => 1,
+        1 => 2 + s.below(2),
+        _ => 2 + s.below(15),
+    };
     // long runs on little games: with three or more infosets the envelope falls below a constant
     // fraction of the payoff range only after tens of thousands of iterations
     let iters = if built.info.num_nodes <= 30 && s.chance(48) {
